@@ -142,7 +142,7 @@ var c07Judged = []string{"alive:expired", "dead-unexpected", "advertised-lifetim
 
 // C07 — nothing is honoured after it has expired.
 func C07(c *run.Ctx) {
-	n := c.N(96, 3200)
+	n := c.N(96, 8000)
 	c.Need("c07_accept_before_expiry", 1)
 	c.Need("c07_refuse_after_expiry", 1)
 	for i := 0; i < n; i++ {
